@@ -27,14 +27,19 @@
     machine reserved for a batch.
   * `k.st.FreeFor ob`: the tests of `Telescope.run` / `check_ingest_capacity` succeed for `ob`.
 
-  What is FALSE as first written: "at every time strictly between `ast` and `ast + duration` the pool
-  holds the demand".  For a duration of 3 or more the body of an ingest task (`do_work`: timeout
-  `duration - 1`) ends at `ast + duration - 1` BEFORE its allocation process polls in that instant
-  (the body's timeout was scheduled at `ast`, the poll's at `ast + duration - 2`), so the machine is
-  given back at `ast + duration - 1`, one step before the observation ends and before the recorded
-  finish `aft = ast + duration` of the ingest task; for durations 1 and 2 the poll comes first and
-  the machine is given back at `ast + duration`, after the telescope's block of that instant.  See
-  `C08_ingest_holds_demand_statement_false` (witness: `otW 3 2`) and `C08_ingest_holds_demand_partial`.
+  -- F13 (`allocate_task_to_cluster` releases the machine only when the body has ended AND
+  -- `env.now >= task.aft`): the clause "at every time strictly between `ast` and `ast + duration`
+  -- the pool holds the demand" is now TRUE as first written (`C08_ingest_holds_demand_statement_holds`),
+  -- and also at the telescope's block of the instant `ast + duration` itself
+  -- (`C08_ingest_holds_demand`, last clause): every machine is given back inside the instant
+  -- `ast + duration`, after the telescope's block that finishes the observation, for every duration.
+  -- Before the repair the clause was false for durations ≥ 3: the body of an ingest task (`do_work`:
+  -- timeout `duration - 1`) ends at `ast + duration - 1` BEFORE its allocation process polls in that
+  -- instant (the body's timeout was scheduled at `ast`, the poll's at `ast + duration - 2`), so the
+  -- machine was given back at `ast + duration - 1`, one step before the observation ends and before
+  -- the recorded finish `aft = ast + duration` of the ingest task (finding K6; old witness `otW 3 2`,
+  -- 35 kernel steps: pool empty at t = 3 — the same state now holds both machines,
+  -- `C08_ingest_holds_demand_witness`).
 -/
 import TopsimProofs.OnTime11
 import TopsimProps.C08
@@ -111,9 +116,10 @@ theorem C08_on_time_block_simpy (s : Sys) (p : Proc) (orc : Oracle) (hk : p.k = 
 
 /-! ## (2) the machines ingest holds for an observation -/
 
-/-- The clause at full strength (FALSE): at every block start strictly between the recorded start and
-`ast + duration`, in a run that has raised no exception, exactly `ingestDemand` allocation processes
-hold a machine of the ingest pool for the observation. -/
+/-- The clause at full strength (F13: TRUE, `C08_ingest_holds_demand_statement_holds`; false before the
+repair): at every block start strictly between the recorded start and `ast + duration`, in a run that
+has raised no exception, exactly `ingestDemand` allocation processes hold a machine of the ingest pool
+for the observation. -/
 def C08_ingest_holds_demand_statement : Prop :=
   ∀ (env : SimEnv) (s0 : Sys) (k : SimState), Sys.WFConfig s0 → SimReach env s0 k → k.st.crashed = none →
     ∀ (e : HEntry) (p : Proc) (oid : Oid) (ob : Obs) (a : Nat), k.peek = some e →
@@ -121,28 +127,26 @@ def C08_ingest_holds_demand_statement : Prop :=
       ((a : Nat) : Time) < e.time → e.time < (((a + ob.duration : Nat) : Nat) : Time) →
       k.st.ingestHeld oid = ob.ingestDemand
 
-/-- The witness: configuration `otW 3 2` (three machines of speed 1, ingest limit 2, one observation:
-planned start 1, duration 3, one array, ingest rate 1, two ingest machines, no workflow; queue
-algorithm; hot and cold buffer 100 / 100, rates 10 / 10), no delay model, 35 kernel steps.  The
-observation was admitted at 1; the kernel is about to resume the cluster loop at time 3 < 1 + 3; both
-ingest machines have been given back (the pool is empty) while the observation is still RUNNING; no
-exception. -/
+/-- The state that refuted the clause before the repair: configuration `otW 3 2` (three machines of
+speed 1, ingest limit 2, one observation: planned start 1, duration 3, one array, ingest rate 1, two
+ingest machines, no workflow; queue algorithm; hot and cold buffer 100 / 100, rates 10 / 10), no delay
+model, 35 kernel steps.  The observation was admitted at 1; the kernel is about to resume the cluster
+loop at time 3 < 1 + 3; the observation is RUNNING; no exception. -/
+-- F13: both ingest machines are still held (pool `[0, 1]`, held 2); before the repair: pool `[]`, held 0
 theorem C08_ingest_holds_demand_witness :
     Sys.WFConfig (otW 3 2) ∧ SimReach {} (otW 3 2) (ilSimSteps {} 35 (SimState.start (otW 3 2))) ∧
     otView (ilSimSteps {} 35 (SimState.start (otW 3 2))) =
-      ⟨some 3, some true, [], 0, some .running, some (some 1), none, some 3, some 2⟩ :=
+      ⟨some 3, some true, [0, 1], 2, some .running, some (some 1), none, some 3, some 2⟩ :=
   ⟨otW_wf 3 2 (by decide), SimReach.start.steps 35, otSim3.2.2.2.2.1⟩
 
-theorem C08_ingest_holds_demand_statement_false : ¬ C08_ingest_holds_demand_statement := by
-  intro hall
-  obtain ⟨hwf, hr, hv⟩ := C08_ingest_holds_demand_witness
-  obtain ⟨⟨e, p, hpk, hpp, ha, het⟩, ⟨ob, hob, _, hast, hdur, hdem⟩, _, hheld, hcr⟩ := otView_spec hv
-  have := hall {} (otW 3 2) _ hwf hr hcr e p 0 ob 1 hpk hpp ha hob hast
-    (by rw [het]; decide +kernel) (by rw [het, hdur]; decide +kernel)
-  rw [hheld, hdem] at this
-  exact absurd this (by decide)
+/-- The clause as first written holds. -/
+-- F13: replaces `C08_ingest_holds_demand_statement_false`
+theorem C08_ingest_holds_demand_statement_holds : C08_ingest_holds_demand_statement := by
+  intro env s0 k hw h hc e p oid ob a hpk hpp ha hob hast hlo hhi
+  exact (sim_ingest_exact env s0 hw k h hc hpk hpp ha hob hast hlo hhi).2.2
 
-/-- **What is true** (the strongest form proved).  At every block start (time `e.time`) of every run:
+/-- **The form proved before the repair** (kept; every clause still holds, and
+`C08_ingest_holds_demand` below is stronger).  At every block start (time `e.time`) of every run:
 
 * an allocation process that holds a machine of the ingest pool works for an observation with a
   recorded start `a`, and `e.time ≤ a + duration` — nothing is held for an observation that has not
@@ -157,9 +161,10 @@ theorem C08_ingest_holds_demand_statement_false : ¬ C08_ingest_holds_demand_sta
 Inside the two boundary instants: at `a` nothing is held before the provisioning block (the
 supervisor's and the provisioning process's first blocks follow the telescope's) and the demand after
 it; the machines are given back, one allocation process after the other, inside the instant
-`a + duration - 1` when the duration is 3 or more (after the telescope's block of that instant), and
-inside the instant `a + duration`, after the telescope's block that finishes the observation, when the
-duration is 1 or 2 (`C08_ingest_release_examples`). -/
+`a + duration`, after the telescope's block that finishes the observation
+(`C08_ingest_holds_demand`, `C08_ingest_release_examples`).
+-- F13: before the repair they were given back inside the instant `a + duration - 1` when the duration
+-- was 3 or more. -/
 theorem C08_ingest_holds_demand_partial (env : SimEnv) (s0 : Sys) (hw : Sys.WFConfig s0) (k : SimState)
     (h : SimReach env s0 k) {e : HEntry} {p : Proc} (hpk : k.peek = some e)
     (hpp : k.st.proc? e.pid = some p) (ha : p.alive = true) :
@@ -195,8 +200,53 @@ theorem C08_ingest_holds_demand_partial (env : SimEnv) (s0 : Sys) (hw : Sys.WFCo
     rw [hast] at hast2; cases hast2
     exact absurd hlt (Rat.not_lt.mpr hle)
   · intro hc a hast hlo hhi
-    exact ⟨(sim_ingest_exact env s0 hw k h hc hpk hpp ha hob hast hlo hhi).2.2,
+    have hhi' : e.time < (((a + ob.duration : Nat) : Nat) : Time) := by grind
+    exact ⟨(sim_ingest_exact env s0 hw k h hc hpk hpp ha hob hast hlo hhi').2.2,
       sim_ingest_tasks env s0 hw k h hc hpk hpp ha hob hast hlo⟩
+
+/-- **The machines ingest holds for an observation, with the repaired release timing** (F13: new).  At
+every block start (time `e.time`) of every run:
+
+* an allocation process that holds a machine of the ingest pool works for an observation with a
+  recorded start `a`, and `e.time ≤ a + duration`; nothing is held for an observation without a
+  recorded start, nothing after the instant `a + duration`;
+* in a run that has raised no exception, at every block start at a time `t` with `a < t < a + duration`
+  exactly `ingestDemand` allocation processes hold a machine for the observation, none of its
+  allocation processes has ended; each of them is polling, its machine is in the ingest pool, and it
+  runs an ingest task of the observation whose record carries the observation's recorded start;
+* … and the same count at the block start of the telescope's loop at time `a + duration` (the block
+  that marks the observation FINISHED): in SimPy's order every machine is given back inside the instant
+  `a + duration`, after that block — for every duration.
+
+Inside the instant `a` nothing is held before the provisioning block and the demand after it. -/
+theorem C08_ingest_holds_demand (env : SimEnv) (s0 : Sys) (hw : Sys.WFConfig s0) (k : SimState)
+    (h : SimReach env s0 k) {e : HEntry} {p : Proc} (hpk : k.peek = some e)
+    (hpp : k.st.proc? e.pid = some p) (ha : p.alive = true) :
+    (∀ x ∈ k.st.cl.ilEntries, ∃ o ob a, x.obs = some o ∧ k.st.obs? o = some ob ∧ ob.ast = some a ∧
+      e.time ≤ (((a + ob.duration : Nat) : Nat) : Time)) ∧
+    ∀ oid ob, k.st.obs? oid = some ob →
+      (ob.ast = none → k.st.ingestHeld oid = 0) ∧
+      (∀ a, ob.ast = some a → (((a + ob.duration : Nat) : Nat) : Time) < e.time → k.st.ingestHeld oid = 0) ∧
+      (k.st.crashed = none → ∀ a, ob.ast = some a → ((a : Nat) : Time) < e.time →
+        e.time < (((a + ob.duration : Nat) : Nat) : Time) →
+        k.st.ingestHeld oid = ob.ingestDemand ∧ Sys.NoDeadAlloc k.st oid ∧
+        ∀ x ∈ k.st.cl.ilEntries, x.obs = some oid →
+          x ∈ k.st.cl.runOn ∧ x.mach ∈ k.st.cl.ingest ∧
+          ∃ i rec, x.task = .ingest oid i ∧ k.st.task? (.ingest oid i) = some rec ∧
+            rec.ast = some ((a : Nat) : Time)) ∧
+      (k.st.crashed = none → ∀ a, ob.ast = some a → TelDue k (a + ob.duration) →
+        k.st.ingestHeld oid = ob.ingestDemand ∧ Sys.NoDeadAlloc k.st oid) := by
+  obtain ⟨hwin, hrest⟩ := C08_ingest_holds_demand_partial env s0 hw k h hpk hpp ha
+  refine ⟨hwin, ?_⟩
+  intro oid ob hob
+  obtain ⟨h1, h2, _⟩ := hrest oid ob hob
+  refine ⟨h1, h2, ?_, ?_⟩
+  · intro hc a hast hlo hhi
+    obtain ⟨_, g2, g3⟩ := sim_ingest_exact env s0 hw k h hc hpk hpp ha hob hast hlo hhi
+    exact ⟨g3, g2, sim_ingest_tasks env s0 hw k h hc hpk hpp ha hob hast hlo⟩
+  · intro hc a hast hdue
+    obtain ⟨_, g2, g3⟩ := sim_ingest_at_end env s0 hw k h hc hob hast hdue
+    exact ⟨g3, g2⟩
 
 /-- the ingest pool is, machine for machine, the machines the ingest allocation processes hold -/
 theorem C08_ingest_pool_is_held (env : SimEnv) (s0 : Sys) (hw : Sys.WFConfig s0) (k : SimState)
@@ -331,22 +381,44 @@ example : ∃ k e p ob, SimReach {} (otW 3 2) k ∧ k.st.crashed = none ∧ k.pe
   exact ⟨_, e, p, ob, SimReach.start.steps 17, hcr, hpk, hpp, ha, hob, hast, by rw [het]; decide +kernel,
     by rw [het, hdur]; decide +kernel, by rw [hheld, hdem], hpool⟩
 
-/-- **Where the machines are given back.**  Duration 3 (`otW 3 2`, start 1): still two machines held at
-the first block start of time 3 = start + duration - 1 … none two kernel steps later in the same
-instant, the observation still RUNNING; it is finished at time 4.  Duration 2 (`otW 2 2`, start 1): at
-time 3 = start + duration the observation is FINISHED (the telescope's block has run) and the two
-machines are still held; they are given back three kernel steps later in that instant. -/
+/-- a block start in the LAST instant of an ingest (time 3, start 1, duration 3), the pool still holding
+exactly the demand (F13: before the repair both machines had been given back by then) -/
+example : ∃ k e p ob, SimReach {} (otW 3 2) k ∧ k.st.crashed = none ∧ k.peek = some e ∧
+    k.st.proc? e.pid = some p ∧ p.alive = true ∧ k.st.obs? 0 = some ob ∧ ob.ast = some 1 ∧
+    ((1 : Nat) : Time) < e.time ∧ e.time < (((1 + ob.duration : Nat) : Nat) : Time) ∧
+    ¬ e.time + 1 < (((1 + ob.duration : Nat) : Nat) : Time) ∧
+    k.st.ingestHeld 0 = ob.ingestDemand ∧ k.st.cl.ingest = [0, 1] := by
+  obtain ⟨⟨e, p, hpk, hpp, ha, het⟩, ⟨ob, hob, _, hast, hdur, hdem⟩, hpool, hheld, hcr⟩ :=
+    otView_spec otSim3.2.2.2.2.1
+  exact ⟨_, e, p, ob, SimReach.start.steps 35, hcr, hpk, hpp, ha, hob, hast, by rw [het]; decide +kernel,
+    by rw [het, hdur]; decide +kernel, by rw [het, hdur]; decide +kernel, by rw [hheld, hdem], hpool⟩
+
+/-- **Where the machines are given back.**  Duration 3 (`otW 3 2`, start 1): two machines held at the
+first block start of time 3 = start + duration - 1, and still after both allocation processes have
+polled in that instant (step 35); at time 4 = start + duration: two held when the telescope's block is
+next (step 40, RUNNING) and after it (step 41, FINISHED); then one (step 43), then none (step 44).
+Duration 2 (`otW 2 2`, start 1): at time 3 = start + duration the observation is FINISHED (the
+telescope's block has run) and the two machines are still held; they are given back three kernel steps
+later in that instant. -/
+-- F13: before the repair the duration-3 run showed an empty pool at step 35 (t = 3) and at 41 (t = 4)
 theorem C08_ingest_release_examples :
     otView (ilSimSteps {} 33 (SimState.start (otW 3 2))) =
       ⟨some 3, some true, [0, 1], 2, some .running, some (some 1), none, some 3, some 2⟩ ∧
     otView (ilSimSteps {} 35 (SimState.start (otW 3 2))) =
-      ⟨some 3, some true, [], 0, some .running, some (some 1), none, some 3, some 2⟩ ∧
+      ⟨some 3, some true, [0, 1], 2, some .running, some (some 1), none, some 3, some 2⟩ ∧
+    otView (ilSimSteps {} 40 (SimState.start (otW 3 2))) =
+      ⟨some 4, some true, [0, 1], 2, some .running, some (some 1), none, some 3, some 2⟩ ∧
     otView (ilSimSteps {} 41 (SimState.start (otW 3 2))) =
+      ⟨some 4, some true, [0, 1], 2, some .finished, some (some 1), none, some 3, some 2⟩ ∧
+    otView (ilSimSteps {} 43 (SimState.start (otW 3 2))) =
+      ⟨some 4, some true, [1], 1, some .finished, some (some 1), none, some 3, some 2⟩ ∧
+    otView (ilSimSteps {} 44 (SimState.start (otW 3 2))) =
       ⟨some 4, some true, [], 0, some .finished, some (some 1), none, some 3, some 2⟩ ∧
     otView (ilSimSteps {} 32 (SimState.start (otW 2 2))) =
       ⟨some 3, some true, [0, 1], 2, some .finished, some (some 1), none, some 2, some 2⟩ ∧
     otView (ilSimSteps {} 35 (SimState.start (otW 2 2))) =
       ⟨some 3, some true, [], 0, some .finished, some (some 1), none, some 2, some 2⟩ :=
-  ⟨otSim3.2.2.2.1, otSim3.2.2.2.2.1, otSim3.2.2.2.2.2.2, otSim2.1, otSim2.2⟩
+  ⟨otSim3.2.2.2.1, otSim3.2.2.2.2.1, otSim3.2.2.2.2.2.1, otSim3.2.2.2.2.2.2.1, otSim3.2.2.2.2.2.2.2.1,
+    otSim3.2.2.2.2.2.2.2.2, otSim2.1, otSim2.2⟩
 
 end Topsim
